@@ -112,6 +112,35 @@ def evalProgram (Sm : Sem V) (p : Prog) (inputs : List V) : Except String (List 
     | none => throw "dangling graph reference"
   | _ => throw "the program is not a graph"
 
+/-! ### Decidable side conditions of the soundness theorem (computed by the driver for every real graph) -/
+
+/-- The program is a graph whose inputs are distinct tracers without origin. -/
+def Prog.wfTop (p : Prog) : Bool :=
+  match p.top with
+  | [.gref k] =>
+    match p.store.graphs[k]? with
+    | some g => decide g.inputs.Nodup && g.inputs.all (fun i => match p.store.nodes[i]? with | some ⟨_, .none⟩ => true | _ => false)
+    | none => false
+  | _ => false
+
+/-- No pattern (`InlineGraph`) fires on the top-level graph object itself. -/
+def noTopInline (pats : List Pattern) (p : Prog) : Bool :=
+  match p.top with
+  | [.gref k] =>
+    match firstMatch p.store (p.store.nodes.length + 1) pats (.gref k) with
+    | .ok none => true
+    | _ => false
+  | _ => false
+
+/-- Every pass of the run of `optimizeDag` starts from a well-formed graph on which `InlineGraph` does not fire. -/
+def goodRun (pats : List Pattern) : Nat → Prog → Bool
+  | 0, _ => true
+  | n + 1, p =>
+    p.wfTop && noTopInline pats p &&
+      (match pass pats p.fuel p with
+       | .ok (p', true) => goodRun pats n p'
+       | _ => true)
+
 /-! ### The laws the patterns rely on -/
 
 /-- `f` is the value of the tracer a pattern is bound to: an `Import` followed by `GetAttr`s (`rpath`: last attribute first). -/
